@@ -145,11 +145,12 @@ func runC05(c *Ctx) {
 	}
 	for _, e := range succ {
 		blk := e.Instr.Block()
+		_ = blk
 		// (the length and non-empty gates are decided for all pairs by C05.exits.length-rule above)
 		_ = accLen
 		_ = accNonEmpty
-		r.Check(mustPass(fn, blk, accCase), "C05.exits.gate.single-case", c.ipos(e.Instr), "success passes the single-case gate on hrp")
-		r.Check(mustPass(fn, blk, hrpGate), "C05.exits.gate.hrp-chars", c.ipos(e.Instr), "success follows a loop over hrp that continues only for runes in 33..126")
+		r.Check(exitMustPass(fn, e, accCase), "C05.exits.gate.single-case", c.ipos(e.Instr), "success passes the single-case gate on hrp")
+		r.Check(exitMustPass(fn, e, hrpGate), "C05.exits.gate.hrp-chars", c.ipos(e.Instr), "success follows a loop over hrp that continues only for runes in 33..126")
 	}
 	// the case gate helper is the same validateCase as Decode's (decided under C04)
 	r.Check(caseFn != nil && caseUniq && len(accCase) > 0, "C05.exits.case-sibling", c.P.Pos(fn.Pos()), "Encode and Decode use the same case validation routine")
